@@ -2,17 +2,24 @@ package main
 
 func init() {
 	addProperty(&Property{
-		ID:    "C18",
-		Title: "Every enumerated keyword maps back to the value that printed it",
-		Decided: "for all declared values of all enum types (exhaustive): String table defines a keyword, FromString maps it back to the same value, keywords are injective (ENUM-TAB); the keyword is a terminal the llir/ll lexer can produce (ENUM-LEX); flag-set printers enumerate exactly the single-bit members between First and Last (ENUM-FLAGS); each FromString is applied to the matching AST keyword node (ENUM-USE).",
+		ID:         "C18",
+		Title:      "Every enumerated keyword maps back to the value that printed it",
+		Decided:    "for all declared values of all enum types (exhaustive): String table defines a keyword, FromString maps it back to the same value, keywords are injective (ENUM-TAB); the keyword is a terminal the llir/ll lexer can produce (ENUM-LEX); flag-set printers enumerate exactly the single-bit members between First and Last (ENUM-FLAGS); each FromString is applied to the matching AST keyword node (ENUM-USE).",
 		NotDecided: "all subsets of the flag types beyond the structure of the set printers; acceptance of each keyword by LLVM itself.",
-		Rules: []RuleUse{{Rule: "ENUM-TAB"}, {Rule: "ENUM-LEX"}, {Rule: "ENUM-FLAGS"}, {Rule: "ENUM-USE"}},
+		Rules:      []RuleUse{{Rule: "ENUM-TAB"}, {Rule: "ENUM-LEX"}, {Rule: "ENUM-FLAGS"}, {Rule: "ENUM-USE"}},
 	})
 	addProperty(&Property{
-		ID:    "C19",
-		Title: "WriteTo honours the io.WriterTo contract, also when the writer fails",
-		Decided: "all module output passes the counting, error-latching wrapper: the caller's writer reaches only the wrapper (W-1), each wrapper method suppresses writes after an error, performs one fmt.Fprint* and records its count and error (W-2), WriteTo returns the wrapper's totals on every return (W-3), nobody else touches the wrapper's state (W-4), String() is WriteTo on a builder (W-5).",
+		ID:         "C19",
+		Title:      "WriteTo honours the io.WriterTo contract, also when the writer fails",
+		Decided:    "all module output passes the counting, error-latching wrapper: the caller's writer reaches only the wrapper (W-1), each wrapper method suppresses writes after an error, performs one fmt.Fprint* and records its count and error (W-2), WriteTo returns the wrapper's totals on every return (W-3), nobody else touches the wrapper's state (W-4), String() is WriteTo on a builder (W-5).",
 		NotDecided: "that fmt.Fprint* issues a single Write and returns its (n, err) faithfully (trusted standard-library behaviour); byte-level equality of delivered prefixes for every failure offset.",
-		Rules: []RuleUse{{Rule: "W-1"}, {Rule: "W-2"}, {Rule: "W-3"}, {Rule: "W-4"}, {Rule: "W-5"}},
+		Rules:      []RuleUse{{Rule: "W-1"}, {Rule: "W-2"}, {Rule: "W-3"}, {Rule: "W-4"}, {Rule: "W-5"}},
+	})
+	addProperty(&Property{
+		ID:         "C01",
+		Title:      "Parse then print preserves the meaning of every accepted module",
+		Decided:    "over every construct of the translator and printers: each grammar alternative is dispatched or rejected with an error, never a panic or silent skip (EXH, SIB); scaffold and fill translators agree on the IR type per AST node (PAIR); every syntax accessor of every handled AST node is read and used (ACC) and lands in the like-named IR field (FLOW); every IR field the parser allocates is filled (FLD-W) and every IR field is read by its printer (FLD-P), in grammar order (ORD), under the right opcode keyword (OPC).",
+		NotDecided: "that the printed text means the same to LLVM at the level of values (literal formatting is C09/C10/C11); crashes guarded by data conditions (e.g. `i1 -1`); the alias-typedef defect F2 (found by reading, no rule).",
+		Rules:      []RuleUse{{Rule: "EXH"}, {Rule: "SIB"}, {Rule: "PAIR"}, {Rule: "ACC"}, {Rule: "FLOW"}, {Rule: "FLD-W"}, {Rule: "FLD-P"}, {Rule: "ORD"}, {Rule: "OPC"}},
 	})
 }
